@@ -7,6 +7,8 @@ from . import model
 from .core import Violation
 from .treemodel import MNode, World, sat_int, ARENA_STRINGS, KEY_POOL, STR_POOL, NUM_POOL
 
+LONG_KEY_POOL = [b"k" * 63, b"k" * 64, b"K" * 64, b"k" * 63 + b"X", b"k" * 63 + b"Y", b"k" * 63 + b"x", b"k" * 65, b"q" * 127 + b"a", b"q" * 127 + b"b",
+                 b"Q" * 127 + b"B", b"Long key " * 30, b"LONG KEY " * 30, b"long key " * 29 + b"long kez ", b"\xc3\xa9" * 40, b"z" * 1000, b"Z" * 999 + b"z"]
 N_KEY_STRINGS = 11   # the first 11 arena strings are keys/values for items; the rest are read by utilities (stored replays keep their meaning)
 
 MAX_ROOTS = 10
@@ -137,7 +139,13 @@ class Interp:
         if m == 13 and member is not None and member.key is not None:
             self.feat.add("alias_member_key")
             return self.lib.shim_key(member.ptr), member.key
-        k = KEY_POOL[(sel // 16) % len(KEY_POOL)]
+        q = sel // 16
+        if q >= 240:
+            # names longer than any fixed scratch buffer; several agree in their first 63 / 127 bytes, some differ in case only
+            k = LONG_KEY_POOL[q % len(LONG_KEY_POOL)]
+            self.feat.add("long_key")
+            return k, k
+        k = KEY_POOL[q % len(KEY_POOL)]
         return k, k
 
     # ------------------------------------------------------------ run
